@@ -173,7 +173,7 @@ func (e *eng) envCase(r layRow, i int) {
 	} else {
 		y.WriteString("    variations:\n      - VN: \"1\"\n")
 	}
-	y.WriteString("    command:\n      - echo \"OBS$VN X=[$X] T=[$TASK_NAME] U=[$UNTOUCHED]\"\n")
+	y.WriteString("    command:\n      - echo \"OBS$VN X=[$X] T=[$TASK_NAME] U=[$UNTOUCHED] lx=[$x] ltn=[$task_name]\"\n")
 	// the stage is named differently from its task in every other row: TASK_NAME stays the task's name
 	if r.Ord == "asc" {
 		y.WriteString("pipelines:\n  p:\n    - name: stage-one\n      task: t\n")
@@ -194,6 +194,9 @@ func (e *eng) envCase(r layRow, i int) {
 	if r.Mode == "stage" {
 		target = "p"
 	}
+	// names are case-sensitive: parent variables that differ from X / TASK_NAME only in case are other
+	// variables and pass through like any
+	extra = append(extra, "x=lower-x", "task_name=lower-tn")
 	// make sure X is not inherited from the harness's own environment
 	os.Unsetenv("X")
 	res := e.run(d, extra, "--raw", target)
@@ -220,16 +223,16 @@ func (e *eng) envCase(r layRow, i int) {
 			wantLater = fmt.Sprintf("v%d", r.Later)
 		}
 		obs2, _ := find(res.Stdout, "OBS2 ")
-		if w2 := fmt.Sprintf("X=[%s] T=[t] U=[pass=through=x]", wantLater); obs2 != w2 {
+		if w2 := fmt.Sprintf("X=[%s] T=[t] U=[pass=through=x] lx=[lower-x] ltn=[lower-tn]", wantLater); obs2 != w2 {
 			add("value-of-an-earlier-variation-visible", fmt.Sprintf("in the second variation (which does not define X) the command saw %q, model %q", obs2, w2))
 		}
 	}
-	wantLine := fmt.Sprintf("X=[%s] T=[t] U=[pass=through=x]", want)
+	wantLine := fmt.Sprintf("X=[%s] T=[t] U=[pass=through=x] lx=[lower-x] ltn=[lower-tn]", want)
 	if obs != wantLine {
 		kind := "wrong-level-wins"
 		if !strings.Contains(obs, "T=[t]") {
 			kind = "task-name-missing"
-		} else if !strings.Contains(obs, "U=[pass=through=x]") {
+		} else if !strings.Contains(obs, "U=[pass=through=x] lx=[lower-x] ltn=[lower-tn]") {
 			kind = "parent-variable-not-passed-through"
 		}
 		add(kind, fmt.Sprintf("command saw %q, model %q", obs, wantLine))
